@@ -502,7 +502,8 @@ class ClassPage(CommonPage):
         r: List["Flattenable"] = []
         source_base = bases[0]
         r.append(tags.code(epydoc2stan.taglink(source_base, page_url, source_base.name)))
-        bases_to_mention = bases[1:-1]
+        # Hidden intermediate classes are not named.
+        bases_to_mention = [b for b in bases[1:-1] if b.isVisible]
         if bases_to_mention:
             tail: List["Flattenable"] = []
             for b in reversed(bases_to_mention):
